@@ -135,7 +135,50 @@ def declare(spec):
                                                                             "original_service_time", "server", "class_change_date", "next_class"]]
                  + ["$seq[Records]"] + [f + "@S(self.servers)" for f in ["cust", "busy", "busy_time", "total_time", "next_end_service_date"]]
                  + ["next_class_change_date@self", "next_class_change_ind@self"],
-                 ensures=ON_ENS + [("C04:one-out-one-in", "self.number_in_service == old(self.number_in_service)")]),
+                 ensures=ON_ENS + [("C04:one-out-one-in", "self.number_in_service == old(self.number_in_service)"),
+                                   ("C09:the-candidate's-own-pending-class-change-is-untouched",
+                                    "implies(old(has(individual, 'next_class')), has(individual, 'next_class') and individual.next_class == old(individual.next_class))")]),
             dict(name="reroute", when="self.priority_preempt == 'reroute'", requires=DP_ON, modifies=["*"], ensures=[]),
         ],
         props=["C11", "C04", "C14"])
+
+
+def declare_class_change_event(spec):
+    """the class-change-while-waiting event handler (C09 / C17 / C11 / C14)"""
+    M = spec.macros
+    CI = "as_obj(self.next_individual, 'Individual')"
+    M["cc_cand_ok"] = ("lambda n, x: is_obj(x, 'Individual') and ref_eq(loc(as_obj(x, 'Individual')), n) and not as_obj(x, 'Individual').server "
+                       "and has(as_obj(x, 'Individual'), 'next_class') and as_obj(x, 'Individual').next_class in n.simulation.network.customer_class_names "
+                       "and cls_ok(n, as_obj(x, 'Individual')) and prev_prio_ok(n, as_obj(x, 'Individual')) "
+                       "and as_obj(x, 'Individual') in n.individuals[as_obj(x, 'Individual').prev_priority_class] "
+                       "and counted_class(as_obj(x, 'Individual')) == as_obj(x, 'Individual').previous_class "
+                       "and has(as_obj(x, 'Individual'), 'class_change_date')")
+    REQ = [INV("shape(self)"), INV("net_ok(self)"), INV("float_clock(self)"), INV("dyn_ok(self)"), "self.dynamic_classes is True",
+           "not isinf(self.c) and has(self, 'servers')", INV("implies(self.slotted, self.c == 0)"), INV("len(self.servers) >= self.c"),
+           INV("self.priority_preempt is False or self.priority_preempt == 'resume' or self.priority_preempt == 'restart' "
+               "or self.priority_preempt == 'resample' or self.priority_preempt == 'reroute'"),
+           INV("pop_fwd(self)"),
+           INV("implies(self.dynamic_classes, forall_in(self.individuals, lambda q: forall_in(q, lambda i: has(i, 'class_change_date'))))"),
+           ("C09:event-fires-for-a-waiting-customer-whose-class-change-is-due", "cc_cand_ok(self, self.next_individual)")]
+    CHECK = [
+        ("C09:the-customer-takes-the-class-that-was-drawn-for-it-and-its-priority-follows",
+         f"{CI}.customer_class == old({CI}.next_class) and "
+         f"{CI}.priority_class == self.simulation.network.priority_class_mapping[old({CI}.next_class)]"),
+        ("C01+C08:it-is-filed-in-the-line-of-its-new-priority-class-exactly-once",
+         f"ref_eq(loc({CI}), self) and {CI} in self.individuals[{CI}.priority_class]"),
+        ("C17:the-tracker-is-told-with-the-class-it-counted-the-customer-under", f"counted_class({CI}) == {CI}.previous_class"),
+    ]
+    add(spec, "Node.change_customer_class_while_waiting", requires=REQ, allocates="any", raises=[("ValueError", "True")],
+        expect_calls={"change_state_classchange": 1},
+        # with the 'reroute' option the victim's departure is an unbounded cascade (modifies *): that it leaves the candidate's own class
+        # bookkeeping alone is ASSUMED (listed), as are the node's structural invariants at that call boundary
+        lemma_after={"decide_preempt": [
+            f"implies(self.priority_preempt == 'reroute', has({CI}, 'next_class') and {CI}.next_class == old({CI}.next_class) "
+            f"and {CI}.previous_class == old({CI}.previous_class) and counted_class({CI}) == old(counted_class({CI})) "
+            f"and {CI}.customer_class == old({CI}.next_class) and cls_ok(self, {CI}) and shape(self) and dyn_ok(self) and ref_eq(self.next_individual, old(self.next_individual)) "
+            f"and implies(self.dynamic_classes, forall_in(self.individuals, lambda q: forall_in(q, lambda i: has(i, 'class_change_date')))))"]},
+        cases=[
+            dict(name="no-reroute", when="self.priority_preempt != 'reroute'", modifies=["*"], at_call={"change_state_classchange": CHECK}, ensures=[]),
+            dict(name="reroute", when="self.priority_preempt == 'reroute'", modifies=["*"], ensures=[]),
+        ],
+        props=["C09", "C17", "C11", "C14", "C01"])
